@@ -52,6 +52,8 @@ pub struct CoreOpts {
     /// false: the library is embedded with an authenticator of the embedder's own - `Settings::clients` stays empty
     /// (the authenticator is still the registry of `clients`)
     pub registry_in_settings: bool,
+    /// HTTP/2 initial_connection_window_size of the endpoint; None = the default
+    pub h2_connection_window: Option<u32>,
 }
 
 impl Default for CoreOpts {
@@ -64,6 +66,7 @@ impl Default for CoreOpts {
             tcp_timeout: Duration::from_secs(600),
             listener_timeout: None,
             registry_in_settings: true,
+            h2_connection_window: None,
         }
     }
 }
@@ -91,7 +94,7 @@ pub fn make_core(o: &CoreOpts) -> Core {
     let settings = b
         .listen_protocols(ListenProtocolSettings {
             http1: Some(Http1Settings::builder().build()),
-            http2: Some(Http2Settings::builder().build()),
+            http2: Some(match o.h2_connection_window { Some(w) => Http2Settings::builder().initial_connection_window_size(w).build(), None => Http2Settings::builder().build() }),
             quic: None,
         })
         .allow_private_network_connections(o.allow_private)
